@@ -6,6 +6,7 @@
   loader applies; `saveReload = flatten ∘ parse ∘ write`.
 -/
 import DdnnfVerif.Proofs.Flatten
+import DdnnfVerif.Proofs.AtomicSame
 namespace Ddnnf.C10
 
 /-- the lexer reads back every line the writer emits (and / or without children come back as
@@ -57,5 +58,13 @@ theorem reload_sat_and_core_like_the_original (nodes : List NType) (n : Nat) (h 
   exact ⟨out, he, fun A hA => same_function_satQuery out nodes n hw h huo hu hsf (hc ▸ hpos) A hA,
     fun l => same_function_core out nodes n hw h huo hu hsf (hc ▸ hpos) l,
     fun A hA hne l => same_function_coreDeadA out nodes n hw h huo hu hsf A hA hne l⟩
+
+/-- … and reports the same atomic sets (plain and cross mode, with satisfiable assumptions) -/
+theorem reload_atomic_sets_like_the_original (nodes : List NType) (n : Nat) (h : WF nodes n)
+    (hu : LitUnique nodes) (A : List Int) (hA : InRange A n) (hsat : 0 < specCount nodes n A)
+    (cands : List Nat) (hc : ∀ f ∈ cands, 1 ≤ f ∧ f ≤ n) (cross : Bool) :
+    ∃ out, saveReload nodes n = some (n, out) ∧
+      atomicSets out n cands A cross [] = atomicSets nodes n cands A cross [] :=
+  saveReload_atomicSets nodes n h hu A hA hsat cands hc cross
 
 end Ddnnf.C10
